@@ -49,6 +49,7 @@ type state struct {
 	profIDs map[string]string // chain -> profile id
 	eps     map[string]*epInfo
 	reject  bool
+	failsafeAdded bool
 }
 
 func b(s string) bool { return s == "1" }
@@ -61,19 +62,33 @@ func (s *state) add(cs []*generictables.Chain) string {
 
 var protoNum = map[string]int{"tcp": 6, "udp": 17, "icmp": 1, "sctp": 132}
 
+// outcome of a policy/profile on a packet of protocol pr: first matching rule decides (log rules do not).
+// action / proto are '+'-joined lists, one entry per rule.
 func outcome(p *polInfo, pr int) string {
-	if p.proto != "-" && protoNum[p.proto] != pr {
-		return "nomatch"
+	acts, prs := strings.Split(p.action, "+"), strings.Split(p.proto, "+")
+	for i := range acts {
+		if prs[i] != "-" && protoNum[prs[i]] != pr {
+			continue
+		}
+		switch acts[i] {
+		case "-", "allow":
+			return "allow"
+		case "deny":
+			return "deny"
+		case "pass", "next-tier":
+			return "pass"
+		}
 	}
-	switch p.action {
-	case "-", "allow":
-		return "allow"
-	case "deny":
-		return "deny"
-	case "pass", "next-tier":
-		return "pass"
+	return "nomatch"
+}
+
+func mkRules(action, pr string) []*proto.Rule {
+	acts, prs := strings.Split(action, "+"), strings.Split(pr, "+")
+	var out []*proto.Rule
+	for i := range acts {
+		out = append(out, mkRule(acts[i], prs[i]))
 	}
-	return "nomatch" // log
+	return out
 }
 
 func mkRule(action, pr string) *proto.Rule {
@@ -195,6 +210,84 @@ func (s *state) reference(e *epInfo, pr int) string {
 	return "deny"
 }
 
+// referenceStalePass: what the verdict becomes if, and only if, the recorded finding
+// "pass bit is not cleared before / between profile chains" is at work: once the pass bit is set (by a
+// pass in the last evaluated tier or by a matching pass rule of an earlier profile) every later profile
+// chain returns at its first pass-action rule, matching or not.
+func (s *state) referenceStalePass(e *epInfo, pr int) string {
+	stale := false
+	for _, t := range e.tiers {
+		groups := t.EgressPolicies
+		if e.in {
+			groups = t.IngressPolicies
+		}
+		if len(groups) == 0 {
+			continue
+		}
+		stale = false // every tier clears the pass bit first
+		enforced := 0
+		decided := ""
+		for _, g := range groups {
+			for _, id := range g.Policies {
+				var p *polInfo
+				for _, q := range s.pols {
+					if q.id == id {
+						p = q
+					}
+				}
+				if p.staged {
+					continue
+				}
+				enforced++
+				if decided == "" {
+					if o := outcome(p, pr); o != "nomatch" {
+						decided = o
+					}
+				}
+			}
+		}
+		switch decided {
+		case "allow":
+			return "allow"
+		case "deny":
+			return "deny"
+		case "pass":
+			stale = true
+			continue
+		}
+		if enforced > 0 && t.DefaultAction != "Pass" {
+			return "deny"
+		}
+	}
+	for _, pc := range e.profs {
+		p := s.profs[pc]
+		acts, prs := strings.Split(p.action, "+"), strings.Split(p.proto, "+")
+	rulesLoop:
+		for i := range acts {
+			matches := prs[i] == "-" || protoNum[prs[i]] == pr
+			switch acts[i] {
+			case "pass", "next-tier":
+				if stale {
+					break rulesLoop
+				}
+				if matches {
+					stale = true
+					break rulesLoop
+				}
+			case "-", "allow":
+				if matches {
+					return "allow"
+				}
+			case "deny":
+				if matches {
+					return "deny"
+				}
+			}
+		}
+	}
+	return "deny"
+}
+
 func exec(h *rt.H, s *state, op string) string {
 	w := strings.Fields(op)
 	switch w[0] {
@@ -224,7 +317,7 @@ func exec(h *rt.H, s *state, op string) string {
 		id := &types.PolicyID{Name: w[6][strings.Index(w[6], "/")+1:], Kind: kindOf(w[1])}
 		p := &polInfo{id: id, staged: w[1] == "s", action: w[4], proto: w[5], in: w[2], out: w[3]}
 		s.pols[w[2]], s.pols[w[3]] = p, p
-		cs := s.r.PolicyToIptablesChains(id, &proto.Policy{Tier: "default", InboundRules: []*proto.Rule{mkRule(w[4], w[5])}, OutboundRules: []*proto.Rule{mkRule(w[4], w[5])}}, 4)
+		cs := s.r.PolicyToIptablesChains(id, &proto.Policy{Tier: "default", InboundRules: mkRules(w[4], w[5]), OutboundRules: mkRules(w[4], w[5])}, 4)
 		if cs == nil {
 			return "staged"
 		}
@@ -236,7 +329,7 @@ func exec(h *rt.H, s *state, op string) string {
 		p := &polInfo{action: w[3], proto: w[4], in: w[1], out: w[2]}
 		s.profs[w[1]], s.profs[w[2]] = p, p
 		s.profIDs[w[1]], s.profIDs[w[2]] = w[5], w[5]
-		in, out := s.r.ProfileToIptablesChains(&types.ProfileID{Name: w[5]}, &proto.Profile{InboundRules: []*proto.Rule{mkRule(w[3], w[4])}, OutboundRules: []*proto.Rule{mkRule(w[3], w[4])}}, 4)
+		in, out := s.r.ProfileToIptablesChains(&types.ProfileID{Name: w[5]}, &proto.Profile{InboundRules: mkRules(w[3], w[4]), OutboundRules: mkRules(w[3], w[4])}, 4)
 		if in.Name != w[1] || out.Name != w[2] {
 			return "chain-name-mismatch"
 		}
@@ -282,6 +375,57 @@ func exec(h *rt.H, s *state, op string) string {
 		s.eps[w[2]] = &epInfo{tiers: tiers, profs: pin, in: true, up: b(w[1])}
 		s.eps[w[3]] = &epInfo{tiers: tiers, profs: pout, in: false, up: b(w[1])}
 		return s.add(cs)
+	case "hep", "hepraw", "hepmangle":
+		// hep <th> <fh> <thfw> <fhfw> <tiersIn> <tiersOut> <fwdIn> <fwdOut> <profIn> <profOut>
+		// hepraw <th> <fh> <tiersIn> <tiersOut>          hepmangle <fh> <tiersIn> <tiersOut>
+		merge := func(a, bb string) []rules.TierPolicyGroups {
+			ti, to := s.parseTiers(a, true), s.parseTiers(bb, false)
+			if len(ti) != len(to) {
+				panic("tier lists differ in length")
+			}
+			out := make([]rules.TierPolicyGroups, len(ti))
+			for i := range ti {
+				out[i] = ti[i]
+				out[i].EgressPolicies = to[i].EgressPolicies
+			}
+			return out
+		}
+		if !s.failsafeAdded {
+			s.text = append(s.text, nfsem.TextChain{Name: "cali-failsafe-in"}, nfsem.TextChain{Name: "cali-failsafe-out"})
+			s.failsafeAdded = true
+		}
+		switch w[0] {
+		case "hep":
+			tiers, fwd := merge(w[5], w[6]), merge(w[7], w[8])
+			var profIDs, pin, pout []string
+			if w[9] != "-" {
+				pin, pout = strings.Split(w[9], ","), strings.Split(w[10], ",")
+				for _, c := range pin {
+					profIDs = append(profIDs, s.profIDs[c])
+				}
+			}
+			cs := s.r.HostEndpointToFilterChains("eth0", tiers, fwd, nil, profIDs)
+			for i := 0; i < 4; i++ {
+				if cs[i].Name != w[1+i] {
+					return "chain-name-mismatch"
+				}
+			}
+			s.eps[w[1]] = &epInfo{tiers: tiers, profs: pout, in: false, up: true}
+			s.eps[w[2]] = &epInfo{tiers: tiers, profs: pin, in: true, up: true}
+			return s.add(cs)
+		case "hepraw":
+			cs := s.r.HostEndpointToRawChains("eth1", merge(w[3], w[4]))
+			if cs[0].Name != w[1] || cs[1].Name != w[2] {
+				return "chain-name-mismatch"
+			}
+			return s.add(cs)
+		default:
+			cs := s.r.HostEndpointToMangleIngressChains("eth2", merge(w[2], w[3]))
+			if cs[0].Name != w[1] {
+				return "chain-name-mismatch"
+			}
+			return s.add(cs)
+		}
 	case "eval":
 		pr, _ := strconv.Atoi(w[2])
 		tbl := nfsem.Parse(s.nft, s.text)
@@ -304,7 +448,12 @@ func exec(h *rt.H, s *state, op string) string {
 				allowKinds := map[string]bool{"return": true} // allowed = returns to the caller with the accept bit
 				ok := (ref == "allow" && allowKinds[res.Kind] && res.Mark&mAccept != 0) || (ref == "deny" && res.Kind == deny)
 				if !ok {
-					h.OracleFail("endpoint-verdict", fmt.Sprintf("endpoint chain %s on proto %d: rendered chains give %s mark=%#x, reference verdict is %s", w[1], pr, res.Kind, res.Mark, ref),
+					sig := "endpoint-verdict"
+					if st := s.referenceStalePass(e, pr); st != ref &&
+						((st == "allow" && allowKinds[res.Kind] && res.Mark&mAccept != 0) || (st == "deny" && res.Kind == deny)) {
+						sig = "profile-pass-stale-mark"
+					}
+					h.OracleFail(sig, fmt.Sprintf("endpoint chain %s on proto %d: rendered chains give %s mark=%#x, reference verdict is %s", w[1], pr, res.Kind, res.Mark, ref),
 						map[string]any{"chain": w[1], "proto": pr})
 				}
 			}
@@ -374,8 +523,13 @@ func genCase(h *rt.H) []string {
 		id := &types.ProfileID{Name: name}
 		in, out := rules.ProfileChainName(rules.ProfileInboundPfx, id, nft), rules.ProfileChainName(rules.ProfileOutboundPfx, id, nft)
 		profIn, profOut = append(profIn, in), append(profOut, out)
+		pact, ppr := rt.Pick(h, []string{"allow", "allow", "deny", "pass", "log"}), rt.Pick(h, []string{"tcp", "udp", "-", "icmp"})
+		if h.Chance(0.4) { // two-rule profile
+			pact += "+" + rt.Pick(h, []string{"allow", "deny", "pass", "log"})
+			ppr += "+" + rt.Pick(h, []string{"tcp", "udp", "-", "icmp", "sctp"})
+		}
 		ops = append(ops, fmt.Sprintf("prof %s %s %s %s %s %s %s", in, out,
-			rt.Pick(h, []string{"allow", "allow", "deny", "pass", "log"}), rt.Pick(h, []string{"tcp", "udp", "-", "icmp"}),
+			pact, ppr,
 			name, hx(fmt.Sprintf("Profile %s ingress", name)), hx(fmt.Sprintf("Profile %s egress", name))))
 	}
 	// tiers: partition the policies into tiers and groups
@@ -445,11 +599,59 @@ func genCase(h *rt.H) []string {
 	}
 	tw, fw := rules.EndpointChainName(rules.WorkloadToEndpointPfx, "cali1234", maxLen), rules.EndpointChainName(rules.WorkloadFromEndpointPfx, "cali1234", maxLen)
 	ops = append(ops, fmt.Sprintf("wep %s %s %s %s %s %s %s", bb(0.9), tw, fw, jl(tin, "|"), jl(tout, "|"), jl(profIn, ","), jl(profOut, ",")))
+	evalChains := []string{tw, fw}
+	if h.Chance(0.5) {
+		hn := func(pfx, iface string) string { return rules.EndpointChainName(pfx, iface, maxLen) }
+		th, fh := hn(rules.HostToEndpointPfx, "eth0"), hn(rules.HostFromEndpointPfx, "eth0")
+		thfw, fhfw := hn(rules.HostToEndpointForwardPfx, "eth0"), hn(rules.HostFromEndpointForwardPfx, "eth0")
+		fin, fout := jl(tin, "|"), jl(tout, "|")
+		if h.Chance(0.4) {
+			fin, fout = "-", "-"
+		}
+		ops = append(ops, fmt.Sprintf("hep %s %s %s %s %s %s %s %s %s %s", th, fh, thfw, fhfw, jl(tin, "|"), jl(tout, "|"), fin, fout, jl(profIn, ","), jl(profOut, ",")))
+		evalChains = append(evalChains, th, fh, thfw, fhfw)
+		if h.Chance(0.5) {
+			rth, rfh := hn(rules.HostToEndpointPfx, "eth1"), hn(rules.HostFromEndpointPfx, "eth1")
+			ops = append(ops, fmt.Sprintf("hepraw %s %s %s %s", rth, rfh, jl(tin, "|"), jl(tout, "|")))
+			mfh := hn(rules.HostFromEndpointPfx, "eth2")
+			ops = append(ops, fmt.Sprintf("hepmangle %s %s %s", mfh, jl(tin, "|"), jl(tout, "|")))
+			evalChains = append(evalChains, rth, rfh, mfh)
+		}
+	}
 	for _, pr := range []int{6, 17, 1, 132, 4, 47} {
-		ops = append(ops, fmt.Sprintf("eval %s %d NEW", rt.Pick(h, []string{tw, fw}), pr))
+		ops = append(ops, fmt.Sprintf("eval %s %d NEW", rt.Pick(h, evalChains), pr))
 	}
 	ops = append(ops, fmt.Sprintf("eval %s 6 %s", tw, rt.Pick(h, []string{"ESTABLISHED", "INVALID", "RELATED"})))
 	return ops
+}
+
+// fixedStalePass: the last tier passes a UDP packet; the profile's first rule is a pass rule for TCP
+// (does not match), its second rule allows UDP.  The pass bit set by the tier is still set when the
+// profile chain runs, so the pass rule's "RETURN if pass bit" fires and the allow rule is never reached.
+func fixedStalePass(nft bool) []string {
+	dp := "ipt"
+	if nft {
+		dp = "nft"
+	}
+	id := &types.PolicyID{Name: "p0", Kind: "GlobalNetworkPolicy"}
+	pi, po := rules.PolicyChainName(rules.PolicyInboundPfx, id, nft), rules.PolicyChainName(rules.PolicyOutboundPfx, id, nft)
+	prID := &types.ProfileID{Name: "prof0"}
+	pri, pro := rules.ProfileChainName(rules.ProfileInboundPfx, prID, nft), rules.ProfileChainName(rules.ProfileOutboundPfx, prID, nft)
+	gin := (&rules.PolicyGroup{Selector: "all()", Direction: rules.PolicyDirectionInbound, Policies: []*types.PolicyID{id}}).ChainName()
+	gout := (&rules.PolicyGroup{Selector: "all()", Direction: rules.PolicyDirectionOutbound, Policies: []*types.PolicyID{id}}).ChainName()
+	maxLen := 28
+	if nft {
+		maxLen = 256
+	}
+	tw, fw := rules.EndpointChainName(rules.WorkloadToEndpointPfx, "cali1234", maxLen), rules.EndpointChainName(rules.WorkloadFromEndpointPfx, "cali1234", maxLen)
+	return []string{
+		fmt.Sprintf("cfg %s 0 0 0 0 0 0", dp),
+		fmt.Sprintf("pol e %s %s pass udp %s %s %s", pi, po, id.ID(), hx("GlobalNetworkPolicy p0 ingress"), hx("GlobalNetworkPolicy p0 egress")),
+		fmt.Sprintf("prof %s %s pass+allow tcp+udp prof0 %s %s", pri, pro, hx("Profile prof0 ingress"), hx("Profile prof0 egress")),
+		fmt.Sprintf("wep 1 %s %s tier0!0!%s~%s:0 tier0!0!%s~%s:0 %s %s", tw, fw, gin, pi, gout, po, pri, pro),
+		fmt.Sprintf("eval %s 17 NEW", tw),
+		fmt.Sprintf("eval %s 6 NEW", tw),
+	}
 }
 
 func main() {
@@ -487,6 +689,8 @@ func main() {
 		run(h.ReplayLines(), "replay")
 		return
 	}
+	run(fixedStalePass(false), "fixed")
+	run(fixedStalePass(true), "fixed")
 	for i := 0; i < h.N; i++ {
 		run(genCase(h), "gen")
 	}
